@@ -477,7 +477,7 @@ def run(ctx):
             ctx.exclude("path-not-used:c08-" + feat, n)
         ctx.handle(case, fails)
 
-    core.run_given(ctx, history(), body, ctx.n(2600, 18000), label="c07-histories")
+    core.run_given(ctx, history(), body, ctx.n(2600, 15000), label="c07-histories")
     if not ctx.violations and ctx.evaluations >= 1000:
         need = ["op:%s:%s" % (k, lv) for k in ("add", "remove", "set", "clear", "get", "is_marked") for lv in ("object", "granular")]
         need += ["op:law_idem", "op:law_order", "op:law_add_remove", "form:dict", "form:object", "version:2.0", "version:2.1", "api:method",
